@@ -189,6 +189,17 @@ def _color_stop(stop_el, shape_opacity=1.0) -> ColorStop:
     return ColorStop(stopOffset=offset, color=color)
 
 
+def _clamp_stop_offsets(stops: Sequence[ColorStop]) -> Tuple[ColorStop, ...]:
+    # https://www.w3.org/TR/SVG11/pservers.html#StopElementOffsetAttribute
+    # each offset is clamped to [0, 1] and made at least as large as the previous one
+    result = []
+    previous = 0.0
+    for stop in stops:
+        previous = max(previous, min(1.0, max(0.0, stop.stopOffset)))
+        result.append(dataclasses.replace(stop, stopOffset=previous))
+    return tuple(result)
+
+
 def _common_gradient_parts(el, shape_opacity=1.0):
     spread_method = el.attrib.get("spreadMethod", "pad").upper()
     if spread_method not in Extend.__members__:
@@ -196,7 +207,9 @@ def _common_gradient_parts(el, shape_opacity=1.0):
 
     return {
         "extend": Extend.__members__[spread_method],
-        "stops": tuple(_color_stop(stop, shape_opacity) for stop in el),
+        "stops": _clamp_stop_offsets(
+            tuple(_color_stop(stop, shape_opacity) for stop in el)
+        ),
     }
 
 
